@@ -57,8 +57,8 @@ var registry = []Harness{
 		Unwind: 40,
 		Bound: "count c0 (param 0) set at epoch 0, t0 ticks (param 1), resize to symbolic count 0..param 3 (6 quick, 12 thorough), t1 ticks (param 2, plus one if 0); symbolic queries snapshot(d) d in -1..7, snapshotByEpoch(q), listNodes(q2); one node per published map carrying its epoch; param 4: the epoch whose map is published EMPTY (the node goes offline before that tick; 0: none), before or after the resize and after the ring wrapped"},
 	{Prop: "C06", Pkg: "netmap", Func: "VerifC06Tick", Link: []string{"netmap", "balance", "probe1", "probe2"},
-		Quick: [][]int{{0, 0}, {1, 0}, {0, 1}}, Thorough: [][]int{{0, 0}, {1, 0}, {2, 0}, {3, 0}, {0, 1}, {1, 1}},
-		Bound: "the two probe subscribers subscribe in the order given by param1 (both orders are run: one contradicts the order of the contract hashes), snapshot count param0 (0: the default 10; 1: the published list is the oldest kept), 3 legacy candidates (Online, Maintenance, Offline->removed), 1 structured, subscribers Balance+probe1+probe2 (probe1 subscribed twice), probe2 refuses one symbolic epoch; two newEpoch invocations with symbolic epochs -2..1000 and symbolic Alphabet signature"},
+		Quick: [][]int{{0, 0, 1}, {1, 0, 1}, {0, 1, 1}, {0, 0, 5}, {0, 0, 6}}, Thorough: [][]int{{0, 0, 1}, {1, 0, 1}, {2, 0, 1}, {3, 0, 1}, {0, 1, 1}, {1, 1, 1}, {0, 0, 2}, {0, 0, 3}, {0, 0, 4}, {0, 0, 5}, {0, 0, 6}, {0, 0, 7}},
+		Bound: "committee size param2 (1; 5 and 6 in quick, 2..7 in thorough) with the tick signed by a symbolic subset of {Alphabet 2n/3+1 account, committee n/2+1 account}; the two probe subscribers subscribe in the order given by param1 (both orders are run: one contradicts the order of the contract hashes), snapshot count param0 (0: the default 10; 1: the published list is the oldest kept), 3 legacy candidates (Online, Maintenance, Offline->removed), 1 structured, subscribers Balance+probe1+probe2 (probe1 subscribed twice), probe2 refuses one symbolic epoch; two newEpoch invocations with symbolic epochs -2..1000 and symbolic Alphabet signature"},
 	{Prop: "C07", Pkg: "netmap", Func: "VerifC07Candidates", Link: []string{"netmap"},
 		Quick: [][]int{{2, 0, 1}, {1, 1, 1}, {1, 2, 1}, {1, 0, 3}, {1, 0, 5}}, Thorough: [][]int{{3, 0, 1}, {2, 1, 1}, {2, 2, 1}, {1, 0, 2}, {1, 0, 3}, {1, 0, 4}, {1, 0, 5}, {1, 0, 6}, {1, 0, 7}},
 		Bound: "committee size param2 (1; 3 and 5 in quick, 2..7 in thorough: one size from every residue class modulo 3, where threshold slips hide), fixture param1 (0: empty; 1/2: n0 held by both lists in different states), then k (param0) consecutive operations, each with symbolic method (addPeer/addPeerIR/addNode/updateState/updateStateIR/deleteNode), symbolic target in the pool {n0,n1}, symbolic state in Z, symbolic Alphabet and node signatures; reference model tracks n0"},
@@ -143,8 +143,8 @@ var registry = []Harness{
 		Quick: [][]int{{1, 1}, {0, 1}, {0, 3}}, Thorough: [][]int{{1, 1}, {1, 4}, {0, 1}, {0, 3}, {0, 4}, {0, 7}},
 		Bound: "deposit, withdraw request, candidate registration, cheque with symbolic amounts/fees/funds/witnesses; param 0: Notary mode, param 1: number of stored Alphabet keys (the cheque is asserted with Notary or one key)"},
 	{Prop: "C19", Pkg: "alphabet", Func: "VerifC19Emit", Link: []string{"alphabet", "proxy"},
-		Quick: [][]int{{1, 1, 0}, {1, 3, 0}, {4, 3, 2}, {4, 7, 0}}, Thorough: [][]int{{1, 1, 0}, {1, 2, 0}, {1, 3, 0}, {4, 3, 2}, {4, 7, 0}, {7, 5, 6}, {7, 4, 3}, {4, 6, 1}},
-		Bound: "committee size param 0, Inner Ring size param 1, Alphabet contract index param 2; contract balance g symbolic 0..10^12; invoker symbolic (any committee member or a stranger); native GAS ledger stub (DESIGN.md 2.3)"},
+		Quick: [][]int{{1, 1, 0, 0}, {1, 3, 0, 0}, {4, 3, 2, 0}, {4, 7, 0, 0}, {1, 3, 0, 1}}, Thorough: [][]int{{1, 1, 0, 0}, {1, 2, 0, 0}, {1, 3, 0, 0}, {4, 3, 2, 0}, {4, 7, 0, 0}, {7, 5, 6, 0}, {7, 4, 3, 0}, {4, 6, 1, 0}, {1, 1, 0, 1}, {1, 3, 0, 1}, {4, 3, 2, 1}},
+		Bound: "committee size param 0, Inner Ring size param 1, Alphabet contract index param 2; param 3 = 1: the Inner Ring is re-designated to a disjoint list in the block right before the emission; contract balance g symbolic 0..10^12; invoker symbolic (any committee member or a stranger); native GAS ledger stub (DESIGN.md 2.3)"},
 	{Prop: "C19", Pkg: "alphabet", Func: "VerifC19Payments", Link: []string{"alphabet", "proxy", "processing", "neofs"},
 		Bound: "GAS transfers of a symbolic amount 0..1000 to Proxy, Processing and Alphabet; direct calls of their onNEP17Payment"},
 	{Prop: "C13", Pkg: "deploy", Func: "VerifC13DivideFunds", Native: true, Unwind: 20,
